@@ -8,7 +8,7 @@
    C01_Model.spec_run.  [find_val t l] is the value stored for the sorted word t, [lookup K t] the map's. *)
 From Coq Require Import ZArith List Bool.
 Import ListNotations.
-Require Import Simplex Trie C01_Model C01_Proofs.
+Require Import Simplex Trie C01_Model C01_Proofs C01_Cofaces.
 Local Open Scope Z_scope.
 
 (* ---- well-formedness (siblings strictly sorted, recursively) is kept by every mutating routine ---- *)
@@ -166,19 +166,53 @@ Theorem C01_height_is_attained : forall l, wf l -> l <> [] ->
 Proof. exact height_witness. Qed.
 Print Assumptions C01_height_is_attained.
 
+(* ---- star and cofaces.  [keys_sorted l]: every stored word is strictly increasing (an invariant of histories, see
+        C01_cofaces_over_histories).  The walk rec_coface behind cofaces_simplex_range of the option sets without label
+        links (with the repaired early exit, fx = true) returns exactly the stored cofaces of the requested
+        codimension (all of them for codimension 0 = star_simplex_range) ---- *)
+Theorem C01_cofaces_walk_is_set_definition : forall st s c,
+  wf (tree st) -> keys_sorted (tree st) -> ub_valid st -> ssorted s -> s <> [] -> 0 <= c ->
+  forall t, In t (cofaces_unlinked true st s c) <->
+            (find_val t (tree st) <> None /\ subseq s t = true /\ (c = 0 \/ sdim t = sdim s + c)).
+Proof. exact cofaces_unlinked_correct. Qed.
+Print Assumptions C01_cofaces_walk_is_set_definition.
+
+(* the label-list search of Simplex_tree_star_simplex_iterators.h (nodes labelled max(s) whose path contains s, and
+   everything below them) filtered by Fast_cofaces_predicate returns the same set *)
+Theorem C01_cofaces_label_search_is_set_definition : forall st s c,
+  wf (tree st) -> keys_sorted (tree st) -> ssorted s -> s <> [] -> 0 <= c ->
+  forall t, In t (cofaces_linked st s c) <->
+            (find_val t (tree st) <> None /\ subseq s t = true /\ (c = 0 \/ sdim t = sdim s + c)).
+Proof. exact cofaces_linked_correct. Qed.
+Print Assumptions C01_cofaces_label_search_is_set_definition.
+
+Theorem C01_linked_equals_unlinked : forall st s c,
+  wf (tree st) -> keys_sorted (tree st) -> ub_valid st -> ssorted s -> s <> [] -> 0 <= c ->
+  forall t, In t (cofaces_unlinked true st s c) <-> In t (cofaces_linked st s c).
+Proof. exact linked_equals_unlinked. Qed.
+Print Assumptions C01_linked_equals_unlinked.
+
+(* lifted to ALL refined histories: both searches report the star / the cofaces of the abstract complex *)
+Theorem C01_cofaces_over_histories : forall ops s c,
+  forallb refined_op ops = true -> ok_history ops = true -> s <> [] -> cmem (spec_run ops) s = true -> 0 <= c ->
+  forall t, In t (cofaces_unlinked true (run true ops) s c) <->
+            In t (if c =? 0 then star (spec_run ops) s else cofaces (spec_run ops) s c).
+Proof. exact cofaces_history. Qed.
+Print Assumptions C01_cofaces_over_histories.
+
+Theorem C01_cofaces_over_histories_linked : forall ops s c,
+  forallb refined_op ops = true -> ok_history ops = true -> s <> [] -> cmem (spec_run ops) s = true -> 0 <= c ->
+  forall t, In t (cofaces_linked (run true ops) s c) <->
+            In t (if c =? 0 then star (spec_run ops) s else cofaces (spec_run ops) s c).
+Proof. exact cofaces_history_linked. Qed.
+Print Assumptions C01_cofaces_over_histories_linked.
+
 (* ---- stated, not proved in Coq (compared per input by the correspondence run instead) ---- *)
 (* histories that also contain insert_graph, expansion and num_simplices_by_dimension *)
 Definition C01_history_refines_full : Prop :=
   forall ops, ok_history ops = true ->
     (forall t, t <> [] -> find_val t (tree (run true ops)) = lookup (spec_run ops) t) /\
     snd (dimension (run true ops)) = cdim (spec_run ops).
-(* both coface searches return exactly the cofaces of the requested codimension (missing: rec_coface walk and
-   label-list search against the set definition) *)
-Definition C01_cofaces_full : Prop :=
-  forall st s c, wf (tree st) -> ub_valid st -> find_val s (tree st) <> None -> 0 <= c ->
-    forall t, (In t (cofaces_unlinked true st s c) <-> In t (cofaces_linked st s c)) /\
-              (In t (cofaces_linked st s c) <->
-               (find_val t (tree st) <> None /\ subseq s t = true /\ (c = 0 \/ sdim t = sdim s + c))).
 (* boundary iterators: exactly the facets, each found in the tree, with the removed vertex *)
 Definition C01_boundary_full : Prop :=
   forall l s, wf l -> (forall t, In t (faces s) -> find_val t l <> None) ->
